@@ -293,8 +293,8 @@ CHECKS = {
              "oracle with tagged acknowledgements for order / return-after-own-ack / errors / readings / connection loss.",
         note=TB + "Partial: atomic steps (threading.Event/Queue, scheduler, timeouts not modelled); synchrony needs a quiescent "
                   "start and no unsolicited error line during a wait; statements abstract (strip/encode tied by correspondence); "
-                  "socket mode shares the writer code and is not run separately. Known findings (known_findings.json): stale ok "
-                  "of the trailing M110; non-ASCII statement kills the send thread. No axioms.",
+                  "socket mode shares the writer code and is not run separately. Known finding (known_findings.json): stale ok "
+                  "of the trailing M110 (the non-ASCII hang was repaired: fix 5f6969b). No axioms.",
         technique="Rocq proofs (inductive invariants over all interleavings of a 4-party transition system) + trace-acceptance correspondence (vm_compute) against the real threads + oracle",
         ref="§C16"),
 }
